@@ -91,6 +91,60 @@ impl<RA, CA, BA: Copy + Into<i128>> BufferInterface for Mock<RA, CA, BA> {
     }
 }
 
+// ---- async twins: same log lines, same answers; every call suspends once before it touches the log
+pub struct YieldOnce(bool);
+impl core::future::Future for YieldOnce {
+    type Output = ();
+    fn poll(mut self: core::pin::Pin<&mut Self>, cx: &mut core::task::Context<'_>) -> core::task::Poll<()> {
+        if self.0 { core::task::Poll::Ready(()) } else { self.0 = true; cx.waker().wake_by_ref(); core::task::Poll::Pending }
+    }
+}
+pub fn yield_once() -> YieldOnce { YieldOnce(false) }
+
+impl<RA: Copy + Into<i128>, CA, BA> AsyncRegisterInterface for Mock<RA, CA, BA> {
+    type Error = MockErr;
+    type AddressType = RA;
+    async fn write_register(&mut self, address: RA, size_bits: u32, data: &[u8]) -> Result<(), MockErr> {
+        yield_once().await;
+        RegisterInterface::write_register(self, address, size_bits, data)
+    }
+    async fn read_register(&mut self, address: RA, size_bits: u32, data: &mut [u8]) -> Result<(), MockErr> {
+        yield_once().await;
+        RegisterInterface::read_register(self, address, size_bits, data)
+    }
+}
+
+impl<RA, CA: Copy + Into<i128>, BA> AsyncCommandInterface for Mock<RA, CA, BA> {
+    type Error = MockErr;
+    type AddressType = CA;
+    async fn dispatch_command(&mut self, address: CA, size_bits_in: u32, input: &[u8], size_bits_out: u32, output: &mut [u8]) -> Result<(), MockErr> {
+        yield_once().await;
+        CommandInterface::dispatch_command(self, address, size_bits_in, input, size_bits_out, output)
+    }
+}
+
+impl<RA, CA, BA: Copy + Into<i128>> AsyncBufferInterface for Mock<RA, CA, BA> {
+    type AddressType = BA;
+    async fn write(&mut self, address: BA, buf: &[u8]) -> Result<usize, MockErr> { yield_once().await; BufferInterface::write(self, address, buf) }
+    async fn flush(&mut self, address: BA) -> Result<(), MockErr> { yield_once().await; BufferInterface::flush(self, address) }
+    async fn read(&mut self, address: BA, buf: &mut [u8]) -> Result<usize, MockErr> { yield_once().await; BufferInterface::read(self, address, buf) }
+}
+
+/// Minimal executor: polls until Ready (the mock's futures wake themselves).
+pub fn block_on<F: core::future::Future>(f: F) -> F::Output {
+    use core::task::{Context, Poll, RawWaker, RawWakerVTable, Waker};
+    fn clone(_: *const ()) -> RawWaker { RawWaker::new(core::ptr::null(), &VT) }
+    fn noop(_: *const ()) {}
+    static VT: RawWakerVTable = RawWakerVTable::new(clone, noop, noop, noop);
+    let waker = unsafe { Waker::from_raw(RawWaker::new(core::ptr::null(), &VT)) };
+    let mut cx = Context::from_waker(&waker);
+    let mut f = core::pin::pin!(f);
+    for _ in 0..1_000_000 {
+        if let Poll::Ready(v) = f.as_mut().poll(&mut cx) { return v; }
+    }
+    panic!("block_on: future still pending after 1000000 polls");
+}
+
 /// Runs `f`, catching a panic; returns Err(message) on panic.
 pub fn catch<R>(f: impl FnOnce() -> R) -> Result<R, String> {
     let r = std::panic::catch_unwind(std::panic::AssertUnwindSafe(f));
@@ -123,6 +177,15 @@ macro_rules! try_ty { ($($t:ty),*) => { $(
     impl TryFrom<$t> for TryTy { type Error = (); fn try_from(v: $t) -> Result<Self, ()> { if (v as i128) < 100 { Ok(TryTy(v as i128)) } else { Err(()) } } }
     impl From<TryTy> for $t { fn from(v: TryTy) -> Self { v.0 as $t } } )* } }
 try_ty!(u8, u16, u32, u64, u128, i8, i16, i32, i64, i128);
+
+// the user's types must be printable when the definition's DefmtFeature is switched on
+#[cfg(feature = "defmt")]
+mod defmt_impls {
+    use super::*;
+    impl defmt::Format for Ty { fn format(&self, f: defmt::Formatter) { defmt::write!(f, "Ty({})", self.0) } }
+    impl defmt::Format for Other { fn format(&self, f: defmt::Formatter) { defmt::write!(f, "Other({})", self.0) } }
+    impl defmt::Format for TryTy { fn format(&self, f: defmt::Formatter) { defmt::write!(f, "TryTy({})", self.0) } }
+}
 '''
 
 ALLOW = "#![allow(unused, dead_code, non_camel_case_types, non_snake_case, clippy::all, unexpected_cfgs)]"
@@ -132,7 +195,7 @@ def crate_dir(ctx, name):
     return os.path.join(ctx.work, name)
 
 
-def write_crate(ctx, name, modules, main_rs, features=None, no_std_modules=False):
+def write_crate(ctx, name, modules, main_rs, features=None, no_std_modules=False, with_defmt=False):
     """modules: dict modname -> generated Rust source (items). Returns crate dir."""
     d = crate_dir(ctx, name)
     src = os.path.join(d, "src")
@@ -151,9 +214,10 @@ edition = "2021"
 device-driver = {{ path = "{vlib.REPO}/device-driver", default-features = false }}
 embedded-io = "0.6.1"
 embedded-io-async = "0.6.1"
+{'defmt = { version = "0.3", optional = true }' if with_defmt else ''}
 
 [features]
-{chr(10).join(f'{f} = []' for f in feats)}
+{chr(10).join((f'{f} = ["dep:defmt", "device-driver/defmt-03"]' if (with_defmt and f == "defmt") else f'{f} = []') for f in feats)}
 
 [workspace]
 
@@ -187,9 +251,11 @@ incremental = false
     return d
 
 
-def build(ctx, name, release=False, check_only=False, timeout=1800, message_format_json=False):
+def build(ctx, name, release=False, check_only=False, timeout=1800, message_format_json=False, cargo_features=None):
     d = crate_dir(ctx, name)
     cmd = ["cargo", "check" if check_only else "build", "--offline"] + (["--release"] if release else [])
+    if cargo_features:
+        cmd += ["--features", ",".join(cargo_features)]
     if message_format_json:
         cmd += ["--message-format=json"]
     rc, out = vlib.run(cmd, cwd=d, timeout=timeout,
